@@ -156,6 +156,56 @@ def is_empty(body):
     return body.get("k") == "block" and not body["stmts"]
 
 
+# ------------------------------------------------------------------------------------------------ inline view of an arm
+# methods of Generator the rules reason about by name; every other `self.<helper>(..)` of Generator is looked into
+NAMED = {"emit", "push_block", "finish_block", "deallocate", "deallocate_indirect", "deallocate_indirect_fields",
+         "deallocate_indirect_variant", "deallocate_in_types", "lift", "lower", "read_from_memory", "write_to_memory",
+         "load_intrepr", "store_intrepr", "flat_for_each_record_type", "flat_for_each_variant_arm", "post_return", "call",
+         "lower_and_emit", "emit_and_lift", "write_list_to_memory", "read_list_from_memory"}
+
+
+def generator_helpers():
+    return {f.name: f for f in synq.all_fns(ABI) if f.self_ty == "Generator" and f.body is not None and f.name not in NAMED}
+
+
+def inline_view(body, V, ren=None, depth=3):
+    """(made, calls) of an arm as if private Generator helpers were written out at their call site, in call order.
+    made:  [(instruction name, node, ren)]     calls: [(method, mcall node, ren)] (receiver `self`)
+    `ren` renames the locals of each (inlined) body: helper parameters are replaced by the rendered caller arguments."""
+    helpers = generator_helpers()
+    vs = set(V)
+    made, calls = [], []
+
+    def rec(node, ren, d, stack):
+        for n in synq.walk(node):
+            k = n.get("k")
+            if k in ("path", "struct") and n["path"].split("::")[-1] in vs:
+                made.append((n["path"].split("::")[-1], n, ren))
+            elif k == "mcall" and render(n["recv"]) == "self":
+                h = helpers.get(n["method"])
+                if h is not None and d > 0 and n["method"] not in stack:
+                    names = [p for p in h.params if p != "self"]
+                    sub = dict(ren or {})
+                    for pn, a in zip(names, n["args"]):
+                        if pn is not None:
+                            sub[pn] = render(a, ren)
+                    rec(h.body, sub, d - 1, stack + (n["method"],))
+                else:
+                    calls.append((n["method"], n, ren))
+    rec(body, ren, depth, ())
+    return made, calls
+
+
+def made_names(body, V):
+    return [n for n, _, _ in inline_view(body, V)[0]]
+
+
+def called(body, V, methods):
+    """`self.m(..)` calls (through helpers) plus direct method calls on any receiver (closures call `me.m(..)`)"""
+    ms = {methods} if isinstance(methods, str) else set(methods)
+    return [c for c in inline_view(body, V)[1] if c[0] in ms] or synq.method_calls(body, tuple(ms))
+
+
 def classify_N(roles):
     def c(arm):
         e = only_expr(arm.body)
@@ -178,12 +228,12 @@ def classify_D(V):
         mc = macro_class(e)
         if mc:
             return mc
-        made = [n for n, _ in synq.constructed(arm.body, V)]
+        made = made_names(arm.body, V)
         if any(n in FREE_OF.values() for n in made):
             return "frees"
         if "DropHandle" in made:
             return "drops-handle"
-        if synq.method_calls(arm.body, "deallocate"):
+        if called(arm.body, V, "deallocate"):
             return "recurses"
         if is_empty(arm.body):
             return "nothing"
@@ -199,12 +249,12 @@ def classify_I(V):
         mc = macro_class(e)
         if mc:
             return mc
-        made = [n for n, _ in synq.constructed(arm.body, V)]
+        made = made_names(arm.body, V)
         if "DropHandle" in made:
             return "drops-handle"
-        if synq.method_calls(arm.body, ("deallocate_indirect", "deallocate_indirect_fields", "deallocate_indirect_variant")):
+        if called(arm.body, V, ("deallocate_indirect", "deallocate_indirect_fields", "deallocate_indirect_variant")):
             return "recurses"
-        if synq.method_calls(arm.body, "deallocate"):
+        if called(arm.body, V, "deallocate"):
             return "frees"        # loads pointer + length and hands the pair to `deallocate` of the same type
         if is_empty(arm.body):
             return "nothing"
@@ -264,6 +314,67 @@ def field_expr(node, name, ren=None):
     return None
 
 
+def handles_table(h):
+    """Deallocate::handles as a function of the variant, written as a `match self` table or as `matches!(self, ..)`"""
+    variants = synq.enum_variants(ABI, "Deallocate")
+    e = only_expr(h.body)
+    neg = False
+    while e.get("k") == "unary" and e["op"] == "!":
+        e, neg = e["e"], not neg
+    if e.get("k") == "macro" and synq.short(e["name"]) == "matches" and "pat" in e and render(e["expr"]).lstrip("*&") == "self" \
+            and e.get("guard") is None:
+        hit = {synq.short(synq.pat_head(p)) for p in synq.pat_alts(e["pat"])}
+        if not hit <= set(variants):
+            raise AnchorMissing(f"Deallocate::handles: matches! pattern {sorted(hit)} not understood")
+        return {v: (v in hit) != neg for v in variants}
+    m = synq.find_match(h.body, "Deallocate::")
+    if render(m["scrut"]).lstrip("*&") != "self":
+        raise AnchorMissing("Deallocate::handles does not match on self")
+    tbl = {}
+    for a in synq.arms(m):
+        b = only_expr(a.body)
+        for hd in a.heads:
+            keys = variants if hd == "_" else [synq.short(hd)]
+            for k_ in keys:
+                tbl.setdefault(k_, (b["v"] != neg) if b.get("k") == "bool" else render(b))
+    return tbl
+
+
+ADAPTERS = {"into_iter", "iter", "collect", "copied", "cloned", "chain", "to_vec", "as_slice"}
+
+
+def collection_sources(fn_body, e, depth=4):
+    """What a collection expression is made of: adapters (`into_iter().collect()`, `iter().chain(x)`) are looked through,
+    a local is resolved through its `let` plus everything later pushed / extended into it.  Returns base expressions."""
+    while e.get("k") in ("ref", "paren") or (e.get("k") == "unary" and e["op"] in ("*", "&")):
+        e = e["e"]
+    k = e.get("k")
+    if k == "mcall" and e["method"] in ADAPTERS:
+        out = collection_sources(fn_body, e["recv"], depth)
+        if e["method"] == "chain":
+            for a in e["args"]:
+                out += collection_sources(fn_body, a, depth)
+        return out
+    if k == "call" and e["func"].get("k") == "path":
+        p = e["func"]["path"]
+        if p in ("Vec::new", "Vec::with_capacity"):
+            return []
+        if p in ("Vec::from_iter", "Vec::from"):
+            return [b for a in e["args"] for b in collection_sources(fn_body, a, depth)]
+    if k == "macro" and synq.short(e["name"]) == "vec" and not e.get("args"):
+        return []
+    if k == "path" and "::" not in e["path"] and depth > 0:
+        inits = [init for nm, init, st in synq.bindings(fn_body) if nm == e["path"] and st["pat"].get("k") == "p_ident"]
+        if len(inits) == 1 and inits[0] is not None:
+            out = collection_sources(fn_body, inits[0], depth - 1)
+            for m in synq.method_calls(fn_body, ("extend", "push", "extend_from_slice")):
+                if render(m["recv"]) == e["path"]:
+                    for a in m["args"]:
+                        out += collection_sources(fn_body, a, depth - 1)
+            return out
+    return [e]
+
+
 # ================================================================================================ core rules
 def core_rules(rep):
     V = instr_variants()
@@ -317,7 +428,7 @@ def core_rules(rep):
         # the free instruction is the one of this kind
         if key in FREE_OF:
             a = tD.per_mode(key, cD)["Lists"][1]
-            made = [x for x, _ in synq.constructed(a.body, V) if x.startswith("GuestDeallocate")] if a else []
+            made = [x for x in made_names(a.body, V) if x.startswith("GuestDeallocate")] if a else []
             rep.ob("R3.1", f"D({key}) frees with {FREE_OF[key]}", made == [FREE_OF[key]], f"arm constructs {made}",
                    fD.loc(a.node if a else None))
         # every child is visited by all three
@@ -382,12 +493,7 @@ def core_rules(rep):
                ind.get("kind") == "const" and ind.get("v") == 1, f"{ind}", pr.loc(cl[0].bb) if cl else pr.loc())
         # (b) Deallocate::handles is the table Lists -> false, ListsAndOwn -> true
         h = synq.find_fn(ABI, "handles", self_ty="Deallocate")
-        m = synq.find_match(h.body, "Deallocate::")
-        tbl = {}
-        for a in synq.arms(m):
-            e = only_expr(a.body)
-            for hd in a.heads:
-                tbl[synq.short(hd)] = e["v"] if e.get("k") == "bool" else render(e)
+        tbl = handles_table(h)
         rep.ob("R3.2", "Deallocate::handles: Lists -> false, ListsAndOwn -> true", tbl == {"Lists": False, "ListsAndOwn": True},
                f"{tbl}", h.loc())
         # (c) the mode is threaded unchanged through the walkers (and their closures)
@@ -464,10 +570,11 @@ def core_rules(rep):
         # memory -> flat: pointer + length are loaded, then the pair goes to `deallocate` of the same type
         for key in FREE_OF:
             a = tI.per_mode(key, cI)["Lists"][1]
-            made = [n for n, _ in synq.constructed(a.body, V)]
-            dc = [render(m["args"], rI) for m in synq.method_calls(a.body, "deallocate") if render(m["recv"]) == "self"]
+            mv, cv = inline_view(a.body, V, rI)
+            made = [n for n, _, _ in mv]
+            dc = [render(m["args"], rn) for nm_, m, rn in cv if nm_ == "deallocate"]
             rep.ob("R3.5", f"I({key}) loads pointer then length and hands them to deallocate(ty, what)",
-                   made == ["PointerLoad", "LengthLoad"] and dc == ["$ty, $what"] and self_calls(a.body)[-1] == "deallocate",
+                   made == ["PointerLoad", "LengthLoad"] and dc == ["$ty, $what"] and [c[0] for c in cv][-1:] == ["deallocate"],
                    f"constructs {made}, deallocate({dc})", fI.loc(a.node))
 
     def s_elements_first():
@@ -475,14 +582,15 @@ def core_rules(rep):
         for key, kids in (("TypeDefKind::List", 1), ("TypeDefKind::Map", 2)):
             a = tD.per_mode(key, cD)["Lists"][1]
             ren = dict(rD, **arm_binds(a))
-            made = [(n, node) for n, node in synq.constructed(a.body, V)]
-            calls = self_calls(a.body)
+            mv, cv = inline_view(a.body, V, ren)
+            made = [(n, node) for n, node, _ in mv]
+            calls = [c[0] for c in cv]
             want = ["push_block", "emit"] + ["deallocate_indirect"] * kids + ["finish_block", "emit"]
             calls_c = [c for c in calls if c in set(want)]
-            rec = [[render(x, ren) for x in m["args"]] for m in synq.method_calls(a.body, "deallocate_indirect")]
+            rec = [[render(x, rn) for x in m["args"]] for nm_, m, rn in cv if nm_ == "deallocate_indirect"]
             kids_ok = len(rec) == kids and [r[0] for r in rec] == [f"$b{i}" for i in range(kids)] and all(r[-1] == "$what" for r in rec)
-            fr = [node for n, node in made if n == FREE_OF[key]]
-            fields_ok = len(fr) == 1 and sorted(render(x["e"], ren) for x in fr[0].get("fields", [])) == [f"$b{i}" for i in range(kids)]
+            fr = [(node, rn) for n, node, rn in mv if n == FREE_OF[key]]
+            fields_ok = len(fr) == 1 and sorted(render(x["e"], fr[0][1]) for x in fr[0][0].get("fields", [])) == [f"$b{i}" for i in range(kids)]
             rep.ob("R3.5", f"D({key}): element block (IterBasePointer, children) is closed before the one {FREE_OF[key]} of the same types",
                    calls_c == want and [n for n, _ in made] == ["IterBasePointer", FREE_OF[key]] and kids_ok and fields_ok,
                    f"self calls {calls_c}, constructs {[n for n, _ in made]}, children {rec}", fD.loc(a.node))
@@ -493,7 +601,7 @@ def core_rules(rep):
             for key, want in (("TypeDefKind::Variant", "$b0.cases.len()"), ("TypeDefKind::Option", "2"), ("TypeDefKind::Result", "2")):
                 a = t.per_mode(key, cl)["Lists"][1]
                 ren = dict(roles, **arm_binds(a))
-                gv = [field_expr(node, "blocks", ren) for n, node in synq.constructed(a.body, V) if n == "GuestDeallocateVariant"]
+                gv = [field_expr(node, "blocks", rn) for n, node, rn in inline_view(a.body, V, ren)[0] if n == "GuestDeallocateVariant"]
                 rep.ob("R3.5", f"{nm}({key}) closes with GuestDeallocateVariant over {want} blocks", gv == [want], f"{gv}", f_.loc(a.node))
         fv = synq.find_fn(ABI, "deallocate_indirect_variant", self_ty="Generator")
         rep.saw(f"{ABI}::{fv.name}")
@@ -514,9 +622,10 @@ def core_rules(rep):
                 a = t.per_mode(key, cl)["ListsAndOwn"][1]
                 if a is None:
                     continue
-                sc = self_calls(a.body)
-                got = [render(m["args"], roles) for m in synq.method_calls(a.body, first)]
-                dh = [field_expr(node, "ty", roles) for n, node in synq.constructed(a.body, V) if n == "DropHandle"]
+                mv, cv = inline_view(a.body, V, roles)
+                sc = [c[0] for c in cv]
+                got = [render(m["args"], rn) for nm_, m, rn in cv if nm_ == first]
+                dh = [field_expr(node, "ty", rn) for n, node, rn in mv if n == "DropHandle"]
                 rep.ob("R3.5", f"{nm}({key}) [ListsAndOwn]: {first}({args}) then DropHandle of the same type",
                        sc == [first, "emit"] and got == [args] and dh == ["$ty"], f"{sc} {got} {dh}", f_.loc(a.node))
 
@@ -538,7 +647,11 @@ def core_rules(rep):
         made = [(n, node) for n, node in synq.constructed(fp.body, V)]
         ga = [field_expr(node, "nth") for n, node in made if n == "GetArg"]
         rt = [field_expr(node, "amt") for n, node in made if n == "Return"]
-        ext = [render(m["args"], rp) for m in synq.method_calls(fp.body, "extend")]
+        # the collection handed to deallocate_in_types, resolved through its `let` and what is added to it
+        ext = []
+        for m in synq.method_calls(fp.body, "deallocate_in_types"):
+            if m["args"]:
+                ext += [render(b, rp) for b in collection_sources(fp.body, m["args"][0])]
         rep.ob("R3.5", "post_return: GetArg 0, walks func.result, Return amt 0, in this order",
                [n for n, _ in made] == ["GetArg", "Return"] and ga == ["0"] and rt == ["0"] and ext == ["$func.result"] and
                self_calls(fp.body) == ["emit", "deallocate_in_types", "emit"], f"{[n for n, _ in made]} {ga} {rt} {ext} {self_calls(fp.body)}", fp.loc())
@@ -554,6 +667,10 @@ def core_rules(rep):
             neg = [n for n in synq.walk(g.body) if n.get("k") == "unary" and n["op"] == "!"]
             dflt = [render(m["args"][0]) for m in synq.method_calls(g.body, ("unwrap_or", "map_or")) if m["args"]]
             calls = synq.fn_calls(g.body, "needs_deallocate")
+            for mt in synq.matches_in(g.body):      # written as `match func.result { Some(t) => .., None => false }`
+                for a in synq.arms(mt):
+                    if any(synq.short(hd) in ("None", "_") for hd in a.heads):
+                        dflt.append(render(only_expr(a.body)))
             rep.ob("R3.5", f"{nm} = needs_deallocate over func.{member} (not negated, absent result = false)",
                    mem == {member} and not neg and len(calls) == 1 and all(d == "false" for d in dflt) and
                    not synq.method_calls(g.body, ("is_none_or", "all", "is_none", "is_empty")),
@@ -662,6 +779,45 @@ def naming_sites(fn):
     return out
 
 
+def print_sites(fn, node, depth=3):
+    """If `node` only builds a string into a local (`let x = format!(.. node ..)`), the places where that local reaches
+    generated text: templates with a hole for it, or other uses outside a `let`; locals built from it are followed.
+    Returns [(site node, if-chain)]; empty when the string is not let-bound (it is printed where it stands)."""
+    chains = {id(n): ch for n, ch in walk_ifs(fn.body)}
+    lets = [(nm, init, st) for nm, init, st in synq.bindings(fn.body) if init is not None and st["pat"].get("k") == "p_ident"]
+
+    def holder(n):
+        for nm, init, st in lets:
+            if any(x is n for x in synq.walk(init)):
+                return nm, st
+        return None
+
+    out, todo, seen = [], [], set()
+    h = holder(node)
+    if h is None:
+        return []
+    todo.append((h[0], h[1], depth))
+    while todo:
+        name, st, d = todo.pop()
+        if (name, id(st)) in seen:
+            continue
+        seen.add((name, id(st)))
+        uses = []
+        for fm in synq.fmts(fn.body):
+            if fm.template_node is not None and any(kind == "name" and key == name and e is None for kind, key, e, off in fm.hole_exprs()):
+                uses.append(fm.template_node)
+        for n in synq.walk(fn.body):
+            if n.get("k") == "path" and n["path"] == name and not any(x is n for x in synq.walk(st)):
+                uses.append(n)
+        for u in uses:
+            h2 = holder(u)
+            if h2 is not None and h2[1] is not st and d > 0:
+                todo.append((h2[0], h2[1], d - 1))
+            elif h2 is None or h2[1] is not st:
+                out.append((u, chains.get(id(u), ())))
+    return out
+
+
 def backend_r33(rep, be, cfg):
     # ---- MIR: the call that generates the post-return body
     c = mir.load("ws", cfg["crate"], "rlib")
@@ -706,8 +862,17 @@ def backend_r33(rep, be, cfg):
     rep.floor("R3.3", f"{be}: sites naming the post-return entry point", len(nsites), cfg["names"])
     for fn, desc, n, ch in nsites:
         under, sig = guard_sig(fn, ch)
+        det = "no enclosing `if` tests the predicate for this function"
+        if not under:
+            # the name is only built here (`let sym = format!(..)`): what matters is where it is printed
+            prints = print_sites(fn, n)
+            if prints:
+                sigs = [guard_sig(fn, pch) for pn, pch in prints]
+                under = all(u for u, _ in sigs)
+                sig = sigs[0][1] if len({tuple(x) for _, x in sigs}) == 1 else ["(print sites differ)"]
+                det = f"built into a local and printed at {len(prints)} site(s), not all under the predicate"
         rep.ob("R3.3", f"{be}: {fn.name}: {desc} only under guest_export_needs_post_return(func)", under,
-               "no enclosing `if` tests the predicate for this function" if not under else "", fn.loc(n))
+               det if not under else "", fn.loc(n))
         if ref is not None and under:
             rep.ob("R3.3", f"{be}: {fn.name}: {desc} is guarded like the abi::post_return call", sig == ref[1],
                    f"site: {sig}; abi::post_return: {ref[1]}", fn.loc(n))
